@@ -132,13 +132,11 @@ Definition collect_with (comp : hy -> cres) (with_kwargs dict_display : bool) :=
         | HExpr (_ :: v :: _) =>
             match comp v with
             | COk e =>
-                match go r with
-                | Coll es ks =>
-                    if dict_display then Coll (None :: Some e :: es) ks
-                    else if with_kwargs then Coll es ((None, e) :: ks)
-                    else CollErr CUser                           (* can't unpack a mapping here *)
-                | err => err
-                end
+                if dict_display then
+                  match go r with Coll es ks => Coll (None :: Some e :: es) ks | err => err end
+                else if with_kwargs then
+                  match go r with Coll es ks => Coll es ((None, e) :: ks) | err => err end
+                else CollErr CUser                               (* can't unpack a mapping here: raised at once *)
             | bad => CollErr bad
             end
         | _ => CollErr CInternal                                  (* expr[1]: IndexError *)
